@@ -10,15 +10,15 @@ TRUST = ("Trusted base: the gocv VC generator (Go subset lowering, A4), z3 5.1.0
 CLAIMS = {
  "C02": dict(
    text="Deductive proof of panic-freedom, termination and bounded allocation for the parsers and walkers under contract, for every input: every index/slice expression in bounds, every integer division by a non-zero divisor, every make size non-negative and (where a callsite make budget is given) bounded independently of numbers read from the file, every for-loop with a decreasing variant (a loop or a directly recursive function WITHOUT a variant is a failing obligation), recursion with lexicographic measures. Covered: the whole content-stream parser; the document parser core.(*Parser) (nextToken, skipComments, ParseObject, parseNumber, parseArray, parseDict: measure = 3*unread input + buffered tokens, so every loop consumes input or stops); core.(*Lexer).ReadBytes (1 MiB allocation budget); xref streams (parseXRefStream/parseXRefStreamEntry: /W widths, /Index pairing, progress per entry); the /Prev chain (ParseAllXRefs, measure 2^64 - visited offsets); object streams (parseHeader/decode/GetObjectByIndex); reader.(*Reader).GetObject (re-entrancy through the parser refused, nesting <= 32) and resolveDeep (depth measure); pages.traversePageNode (depth measure); text.invokeXObject <-> processOperation (nesting counter measure); UTF-16 and CMap string decoders; ASCIIHex/ASCII85; format sniffing; rag boundary search and BatchExporter. Eight genuine crash/hang defects found by failing obligations were repaired in /repo (fix: commits, known_findings.json).",
-   note=TRUST + "PARTIAL: core.(*Lexer).NextToken and core.NewLexer are ASSUMED contracts (flags trusted: the lexer consumes input on every non-EOF token); parseStream/ParseIndirectObject, parseTraditionalXRef, the container readers (zip/xml/html libraries) and recursion DEPTH of the two object parsers (stack use grows with nesting of [ and <<) are not covered; the re-entrancy of GetObject through the uncontracted parser is cut by proved guard obligations, its global measure is argued in DESIGN.md; exponential fan-out of nested form XObjects (depth <= 10) is not bounded.",
+   note=TRUST + "PARTIAL: the document lexer is verified over an ideal byte-stream model of bufio.Reader (reads fail only at the end of the data or, stickily, on an I/O error); parseStream/ParseIndirectObject, parseTraditionalXRef, the container readers (zip/xml/html libraries) and recursion DEPTH of the two object parsers (stack use grows with nesting of [ and <<) are not covered; the re-entrancy of GetObject through the uncontracted parser is cut by proved guard obligations, its global measure is argued in DESIGN.md; exponential fan-out of nested form XObjects (depth <= 10) is not bounded.",
    ref="5.2"),
  "C05": dict(
    text="Deductive proof that the PNG predictor (any per-row filter mix, any Columns/Colors geometry, all rows) and the TIFF predictor 2 decode exactly the bytes a conforming encoder started from (ghost 'original image' sequences; Paeth against the PNG specification); that both predictors are SAFE and terminate on arbitrary data (robust views: the same functions verified without the provenance assumptions); ASCIIHex and ASCII85 per-element semantics (white space ignored, digit pairs / base-85 groups, 'z', partial final group, '~>', values above 2^32-1 rejected) as step contracts; the predictor dispatch (/Predictor 1 = identity, 2 = TIFF, 10..15 = PNG, anything else an error); FlateDecode = inflate then the named predictor (absent, null or 1: none); the filter-name dispatch including every abbreviation of ISO 32000 Table 6 (unknown name = error); and the filter chain: filters applied in array order, the i-th with the i-th /DecodeParms entry (none when the array is shorter) or the single dictionary.",
    note=TRUST + "PARTIAL: zlib inflate (zlibDecompress) and CCITTFaxDecode are ASSUMED deterministic functions (flags trusted, reported in the evidence); 'decode(encode(x)) = x' for Flate as a whole therefore rests on the inflate library; getIntParam's type switch uses uninterpreted dynamic-type tests (exclusive per value).",
    ref="5.5"),
  "C06": dict(
-   text="Proof, complete over all 256 byte values, that the three scanners (document parser, content-stream parser, filters) assign the same meaning to the lexical classes of ISO 32000 7.2: white-space, delimiters, hex digits and hex digit values all equal one spec function; plus the white-space skipping contract of the content-stream parser.",
-   note=TRUST + "PARTIAL: token-level values (literal strings, names, numbers) of the two parsers are not yet compared against one spec; operator/operand grouping is covered under C03.",
+   text="Deductive proof that the document lexer (core.(*Lexer): NextToken, readString, readHexString, readName, readNumber, readKeyword, skipWhitespace, over an ideal byte-stream model of bufio.Reader) and the content-stream parser (parseString, parseHexString, parseName, skipWhitespace) follow ONE specification of ISO 32000 7.2-7.3 lexical syntax: the same specification functions (litNext/litDepth/litEmits/litByte for literal strings with every escape, line continuation, octal codes and nested parentheses; pdfWS/pdfDelim/pdfHexDigit/pdfHexVal for the byte classes; #xx escapes in names) describe each loop iteration of both (step contracts: which bytes an element consumes and which byte it contributes), so every literal string and name both accept gets the same value; hex strings: both ignore white space and take the digits in order; numbers and keywords are exactly the consumed text; class lemmas complete over all 256 byte values tie the three scanners' predicates (core, contentstream, filters) to the spec; operator/operand grouping of content streams (each operator gets exactly the operands parsed since the previous operator).",
+   note=TRUST + "PARTIAL: 'write then parse back' is not stated (there is no writer in the library); the pairing of hex digits into bytes and number conversion use strconv (uninterpreted); the integer-integer-R lookahead and dictionary/array assembly of core.Parser are covered for progress (C02) only; the stream model assumes I/O failures are sticky (a failed read is followed only by failed reads) and steps are stated for iterations without I/O failure.",
    ref="5.6"),
  "C08": dict(
    text="Deductive proof over real arithmetic that the matrix algebra and every graphics-state operator under contract follow ISO 32000: Multiply/Transform against the row-vector semantics (stated semantically: image of every point), cm pre-multiplies the CTM, Td/TD/T* pre-multiply the line matrix and set Tm = Tlm, TD sets the leading, BT resets both matrices, Tm sets both, q pushes exactly what Q restores, Q restores exactly the saved CTM/text state/line width/colours and pops one entry (underflow = error, state unchanged), and the reported text position is the text-space origin through Tm then CTM (zero rise).",
